@@ -10,15 +10,23 @@ VARIABLES owner,     \* mutex owner or 0
           woken,     \* woken, must re-acquire the mutex before wait returns
           pend       \* pend[t]: [st, op]   st: idle | called | blocked | done
 cvars == <<owner, waiting, woken, pend>>
-IdleP == [st |-> "idle", op |-> ""]
+IdleP == [st |-> "idle", op |-> "", res |-> 1]
 CInit == owner = 0 /\ waiting = {} /\ woken = {} /\ pend = [t \in Threads |-> IdleP]
-Call(t, op) == /\ pend[t].st = "idle" /\ pend' = [pend EXCEPT ![t] = [st |-> "called", op |-> op]]
+Call(t, op) == /\ pend[t].st = "idle" /\ pend' = [pend EXCEPT ![t] = [st |-> "called", op |-> op, res |-> 1]]
                /\ UNCHANGED <<owner, waiting, woken>>
 Done(t) == pend' = [pend EXCEPT ![t].st = "done"]
 LinLock(t) == /\ pend[t].st = "called" /\ pend[t].op = "lock" /\ owner = 0
               /\ owner' = t /\ Done(t) /\ UNCHANGED <<waiting, woken>>
 LinUnlock(t) == /\ pend[t].st = "called" /\ pend[t].op = "unlock" /\ owner = t
                 /\ owner' = 0 /\ Done(t) /\ UNCHANGED <<waiting, woken>>
+(* trylock: never blocks; succeeds on a free mutex unless another thread is acquiring it at the same time. In *)
+(* particular it succeeds while every other thread is blocked inside wait - those threads have released it.  *)
+LinTryT(t) == /\ pend[t].st = "called" /\ pend[t].op = "try" /\ owner = 0
+              /\ owner' = t /\ Done(t) /\ UNCHANGED <<waiting, woken>>
+Acquiring(u) == (pend[u].st = "called" /\ pend[u].op \in {"lock", "try"}) \/ (pend[u].st = "blocked" /\ u \in woken)
+LinTryF(t) == /\ pend[t].st = "called" /\ pend[t].op = "try"
+              /\ (owner # 0 \/ \E u \in Threads \ {t} : Acquiring(u))
+              /\ pend' = [pend EXCEPT ![t].st = "done", ![t].res = 0] /\ UNCHANGED <<owner, waiting, woken>>
 WaitBegin(t) == /\ pend[t].st = "called" /\ pend[t].op = "wait" /\ owner = t
                 /\ owner' = 0 /\ waiting' = waiting \cup {t}
                 /\ pend' = [pend EXCEPT ![t].st = "blocked"] /\ UNCHANGED woken
@@ -34,12 +42,12 @@ LinBroadcast(t) == /\ pend[t].st = "called" /\ pend[t].op = "broadcast"
 Spurious(t) == /\ t \in waiting /\ waiting' = waiting \ {t} /\ woken' = woken \cup {t}
                /\ UNCHANGED <<owner, pend>>
 Ret(t) == /\ pend[t].st = "done" /\ pend' = [pend EXCEPT ![t] = IdleP] /\ UNCHANGED <<owner, waiting, woken>>
-Lin(t) == LinLock(t) \/ LinUnlock(t) \/ WaitBegin(t) \/ WaitReturn(t) \/ LinSignal(t) \/ LinBroadcast(t)
+Lin(t) == LinLock(t) \/ LinTryT(t) \/ LinTryF(t) \/ LinUnlock(t) \/ WaitBegin(t) \/ WaitReturn(t) \/ LinSignal(t) \/ LinBroadcast(t)
 (* a thread may legitimately still be blocked only while nobody had to wake it *)
 MayBeStuck(t) == pend[t].st = "blocked" /\ t \in waiting
 TypeOK == waiting \cap woken = {} /\ (owner # 0 => owner \notin waiting)
 (* design-level behaviour set: arbitrary callers *)
-CNext == \/ \E t \in Threads, op \in {"lock", "unlock", "wait", "signal", "broadcast"} : Call(t, op)
+CNext == \/ \E t \in Threads, op \in {"lock", "try", "unlock", "wait", "signal", "broadcast"} : Call(t, op)
          \/ \E t \in Threads : Lin(t) \/ Spurious(t) \/ Ret(t)
 CSpec == CInit /\ [][CNext]_cvars
 (* wait returns only with the mutex held by the caller *)
